@@ -19,6 +19,7 @@ import (
 	"github.com/cenkalti/rain/v2/internal/allocator"
 	"github.com/cenkalti/rain/v2/internal/metainfo"
 	"github.com/cenkalti/rain/v2/internal/piece"
+	"github.com/cenkalti/rain/v2/torrent"
 )
 
 // Suite parse (C06): generated bencoded info dictionaries through the real metainfo.New /
@@ -256,6 +257,31 @@ func execParse(ops []string) []string {
 				res = "done"
 			}
 			obs = append(obs, describeInfo(info)+" pieces="+res)
+		case "limit":
+			// the session guards: LimitReader(MaxTorrentSize) + parseMetaInfo, or parseInfo(version)
+			raw := renderInfoDict(m["d"])
+			maxPieces := uint32(atou(m["maxpieces"]))
+			var info *metainfo.Info
+			var err error
+			if m["via"] == "meta" {
+				var mi *metainfo.MetaInfo
+				mi, err = torrent.VerifParseMetaInfo(bytes.NewReader(renderMeta(raw)), uint(atou(m["maxsize"])), maxPieces)
+				if err == nil {
+					info = &mi.Info
+				}
+			} else {
+				info, err = torrent.VerifParseInfo(raw, atoi(m["ver"]), maxPieces)
+			}
+			switch {
+			case err == nil:
+				obs = append(obs, fmt.Sprintf("accept np=%d len=%d", info.NumPieces, info.Length))
+			case strings.HasPrefix(err.Error(), "too many pieces"):
+				obs = append(obs, "reject:too-many-pieces")
+			case strings.HasPrefix(err.Error(), "unknown resume data version"):
+				obs = append(obs, "reject:version")
+			default:
+				obs = append(obs, "reject:"+metainfo.VerifErrClass(err))
+			}
 		case "raw":
 			b := rawBytes(m["kind"], atoi(m["n"]))
 			var err error
@@ -569,7 +595,23 @@ func genParse(r *Rng, n int, tier string) []Case {
 		}
 	}
 	for i := 0; i < n; i++ {
-		add(genParseCase(r).Op())
+		g := genParseCase(r)
+		if r.Chance(15) {
+			// the same description through the session guards
+			op := g.Op()
+			d := op[strings.Index(op, " d=")+3:]
+			size := len(renderMeta(renderInfoDict(d)))
+			via := "info"
+			if g.Mode == "meta" {
+				via = "meta"
+			}
+			maxsize := r.Pick(size-1, size, size+1, 10<<20, 10<<20, size/2)
+			maxpieces := r.Pick(0, 1, 2, 3, 4, 5, 16, 17, 99, 100, 101, 65536)
+			ver := r.Pick(0, 1, 2, 3, 3, 3, 4)
+			add(fmt.Sprintf("limit via=%s ver=%d maxpieces=%d maxsize=%d size=%d %s", via, ver, maxpieces, maxsize, size, op[strings.Index(op, "hash="):]))
+			continue
+		}
+		add(g.Op())
 	}
 	return cases
 }
